@@ -12,7 +12,8 @@ from vlib.filecheck import read_text
 ID = "C16"
 LEVEL = "exploration"
 RULE = ("inputs: LASFiles built from scratch (C03 generator + NaN/text curves), read from generated texts and from the "
-        "example corpus, optionally edited after reading (index shifted / reversed / truncated / made irregular, another "
+        "example corpus, optionally edited after reading (index shifted / reversed / truncated / made irregular / rows "
+        "dropped through set_data, `las.data = ...` or set_data_from_df, another "
         "curve's sample changed, a header value changed); indexes increasing, decreasing, single-sample, irregular; "
         "drawn writer options (STRT/STOP/STEP left to lasio); 1..3 consecutive writes. Oracle: full snapshot before "
         "and after each write (every field of every item with its type, every array byte, dtype, curve order, ~Other, "
